@@ -1,1 +1,27 @@
-//! Hooks for property C16 (empty until needed).
+//! Hooks for property C16 (hot/cold backend).
+//!
+//! `HotColdBackend` lives in the crate-private module `backend::hotcold`; the
+//! correspondence harness needs to put it over two backends of its own.
+use std::sync::Arc;
+
+use crate::backend::{WriteBackend, hotcold::HotColdBackend};
+
+/// Build the real `HotColdBackend` over the given cold (`be`) and hot backends,
+/// exactly as `Repository::new_with_progress` does.
+pub fn hotcold_backend(
+    be: Arc<dyn WriteBackend>,
+    be_hot: Arc<dyn WriteBackend>,
+) -> Arc<dyn WriteBackend> {
+    Arc::new(HotColdBackend::new(be, be_hot))
+}
+
+/// The tree packs named by the index files, as `repair_hotcold_packs` computes them
+/// (`commands::repair::hotcold::get_tree_packs`).
+pub fn tree_packs<S: crate::repository::Open>(
+    repo: &crate::Repository<S>,
+) -> crate::RusticResult<std::collections::BTreeSet<crate::Id>> {
+    Ok(crate::commands::repair::hotcold::get_tree_packs(repo)?
+        .into_iter()
+        .map(|p| p.into_inner())
+        .collect())
+}
